@@ -256,9 +256,12 @@ PROPS = {
                        "(alias, else name), groups in order of first appearance; a named or inline fragment contributes the groups of its selection set, merged by APPENDING to existing groups, exactly when it exists and its type condition applies -- "
                        "for every fuel that is enough for the fragment expansion (a recursive predicate; that some fuel is enough for an acyclic document is not proved).",
         "assumptions": ["Name equality is equality of the text; IndexMap / IndexSet lookups by text (shims of unit execution); `concrete` names an object type stored under its own name (what concrete_type hands over: precondition)",
-                        "listed rewrite: `members.iter().any(|m| m.name == *concrete)` -> `members.contains(concrete)`"],
-        "not_decided": ["everything else of C33: selection_set / generate_field_value (list nesting, null positions, enum values, scalars of the right JSON kind), concrete_type's choice, termination of collect_fields, "
-                        "and that executing the operation against the generated data reproduces it (needs the executor: C26's undecided main clause)"],
+                        "listed rewrite: `members.iter().any(|m| m.name == *concrete)` -> `members.contains(concrete)`",
+                        "smith_concrete: the second scan finds the idx-th entry the first one counted (`.expect_counted()`: explicit, unproved); choose_index(n) returns an index below n; a union's members are object types (schema validity)",
+                        "smith_keys: concrete_type / collect_fields / generate_field_value / should_be_null are opaque calls; serde_json's Map::insert of distinct keys is an append",
+                        "smith_lists: leaf_field and selection_set return a value that is not an array, repeated_leaf_field and repeated_selection_set an array of such values (read off those four functions, default generators only; not proved)"],
+        "not_decided": ["everything else of C33: null positions, enum values, scalars of the right JSON kind, custom generators, partial data, termination of collect_fields, "
+                        "and that executing the operation against the generated data reproduces it (the executor's units under C26 and these kernels are not composed)"],
     },
     "C10": {
         "level": "proof",
